@@ -1371,7 +1371,7 @@ lock; look at `_threads[0]` under the lock, `break` on IndexError through the re
 the release / `go.set`, `open`, `start`, release) is read from the source. -/
 theorem src_main_successor (cfg : Cfg) (hf : some cfg.fixed = srcFixed) (s s' : State) (m : String) (y : Y)
     (hm : mpcMethod s.mpc = some m) (hy : mpcY true s.mpc = some y) (hs : stepMain cfg s = some s') :
-    nextY skeleton m (mainGv cfg s) y = some (if mpcReturns s.mpc then none else mpcY true s'.mpc) ∧
+    (nextY skeleton m (mainGv cfg s) y).map (·.2) = some (if mpcReturns s.mpc then none else mpcY true s'.mpc) ∧
     (mpcReturns s.mpc = false → mpcMethod s'.mpc = some m) := by
   have hfix : cfg.fixed = true := by
     have := src_variant_is_modelled.1; rw [this] at hf; exact Option.some.inj hf
@@ -1379,6 +1379,31 @@ theorem src_main_successor (cfg : Cfg) (hf : some cfg.fixed = srcFixed) (s s' : 
 
 /-- the method names of `mpcMethod` are those of `src_ctl_is_model` -/
 theorem ctlMeth_is_ctlMethod : ctlMeth = ctlMethod := by funext k; cases k <;> rfl
+
+open ALV.Gen.C17 in
+/-- **C17.src.11 src_player_step_is_interpreted** — `stepPlayer` IS the interpretation of the
+regenerated `AudioThread.run`: for the source variant read on this run, in every state, a step of
+player `i` is enabled exactly when the yield point of its program counter is (`yEnabled`: the lock it
+acquires there is free / the event it waits for is set), and then the WHOLE successor state is
+`stepOfSkel skeleton s i p` = the effect of the operation the skeleton has at that yield point
+(`applyYP`: take / release the lock the skeleton names, one backend call on the own device stream, a
+write hands over the next chunk), then of the local operations the control-flow interpreter passes
+(`applyLocalP`: `_threads.remove` inside `thread_finished`), then the yield point it reaches as the
+new program counter.  What stays hand-written for a player thread is `applyYP` / `applyLocalP` (what
+ONE operation of the vocabulary does to the state: 8 + 1 one-line cases) and `playerGv` (which state
+fields the guards read) — not which operation comes where, nor under which lock, nor what follows. -/
+theorem src_player_step_is_interpreted (cfg : Cfg) (hf : some cfg.fixed = srcFixed) (s : State) (i : Nat)
+    (p : Player) (hp : s.players[i]? = some p) (hw : p.pc = .write → p.todo ≠ [] ∨ p.fail = true) :
+    stepPlayer cfg s i =
+      if p.pc == .begin || yEnabled s p false (ppcY p.pc) then some (stepOfSkel skeleton s i p) else none := by
+  have hfix : cfg.fixed = true := by
+    have := src_variant_is_modelled.1; rw [this] at hf; exact Option.some.inj hf
+  have hen := player_enabled_iff cfg s i p hp hw
+  rcases hst : stepPlayer cfg s i with _ | s'
+  · rw [hst] at hen
+    rw [← hen]; rfl
+  · rw [hst] at hen
+    rw [← hen, player_step_is_skeleton cfg hfix s s' i p hp hst]; rfl
 
 /-- **C17.src.8 src_shutdown** — the liveness clause for the source AS READ: for the configuration
 whose `fixed` switch is the one extracted from `lazy_io.py` on this run, `wait=False`, every schedule
